@@ -10,8 +10,9 @@ DEX_INV = ["HoldingExact", "PointsExact", "Conserved", "ProductNeverFalls", "Fai
 SWAP_INV = ["EscrowExact", "PaidOnce", "Conserved"]
 
 
-def dex_design(work, name, off=None, ops=3, rot=5):
-    c = {"Acct": '{"a1", "a2"}', "Chains": '{"A", "B"}', "Amounts": "{7}", "Pcts": "{50, 100}", "MaxOps": str(ops), "MaxRot": str(rot), "Liq0": "100", "Bal0": "20"}
+def dex_design(work, name, off=None, ops=3, rot=5, fallback=False):
+    c = {"Acct": '{"a1", "a2"}', "Chains": '{"A", "B"}', "Amounts": "{7}", "Pcts": "{50, 100}", "MaxOps": str(ops), "MaxRot": str(rot), "Liq0": "100", "Bal0": "20",
+         "EnableFallback": "TRUE" if fallback else "FALSE"}
     for g in DEX_G:
         c[g] = "FALSE" if g == off else "TRUE"
     return vlib.tlc(os.path.join(work, name), "Dex", vlib.cfg_text(constants=c, view="view", invariants=DEX_INV), workers=16, timeout=3000)
@@ -47,7 +48,8 @@ def main(tier):
         nx, _ = vlib.build_harness("nodex")
         rd = dex_design(work, "dex", ops=3 if tier == "quick" else 4, rot=5 if tier == "quick" else 6)
         rs = swap_design(work, "swap", steps=5 if tier == "quick" else 6)
-        for r in (rd, rs):
+        rf = dex_design(work, "dex-fallback", ops=2, rot=4 if tier == "quick" else 5, fallback=True)
+        for r in (rd, rs, rf):
             if r.violated or not r.finished:
                 raise vlib.Infra("design model fails: %s %s" % (r.violated, r.error))
         needed = []
@@ -67,7 +69,7 @@ def main(tier):
             p = vlib.sh([nx] + args + [f], timeout=3000, check=False)
             if p.returncode != 0:
                 raise vlib.Infra("nodex %s failed: %s" % (args[0], p.stdout[-800:]))
-        dc = {"Acct": '{"a0", "a1", "a2"}', "Chains": '{"A", "B"}', "Amounts": "{1}", "Pcts": "{100}", "MaxOps": "0", "MaxRot": "0", "Liq0": "1", "Bal0": "1"}
+        dc = {"Acct": '{"a0", "a1", "a2"}', "Chains": '{"A", "B"}', "Amounts": "{1}", "Pcts": "{100}", "MaxOps": "0", "MaxRot": "0", "Liq0": "1", "Bal0": "1", "EnableFallback": "FALSE"}
         dc.update({g: "TRUE" for g in DEX_G})
         sc = {"Acct": '{"a0", "a1", "a2"}', "Amounts": "{1}", "MaxOrders": "0", "MaxSteps": "0", "Bal0": "0"}
         sc.update({g: "TRUE" for g in SWAP_G})
@@ -86,6 +88,7 @@ def main(tier):
             if module == "DexTrace":
                 stats[name]["deliveries_with_orders"] = sum(1 for e in recs if e.get("op") == "deliver" and e["perm"])
                 stats[name]["deliveries_with_withdrawals"] = sum(1 for e in recs if e.get("op") == "deliver" and e["remote"]["wds"])
+                stats[name]["fallbacks"] = sum(1 for e in recs if e.get("op") == "fallback")
                 stats[name]["deliveries_with_deposits"] = sum(1 for e in recs if e.get("op") == "deliver" and e["remote"]["deps"])
             for ln in bad:
                 e = recs[ln - 1]
@@ -100,7 +103,7 @@ def main(tier):
             v.violation(key, "the real state machine's %s step differs from the specification or breaks an accounting identity (%d time(s); first: %s line %d: %s)%s"
                         % (key, len(items), name, ln, json.dumps({k: e[k] for k in e if k not in ("post", "remote")})[:300], "; the specification expected " + ex[:400] if ex else ""),
                         {"line": e, "expected_by_spec": ex})
-        coverage = {"states": rd.distinct + rs.distinct, "transitions": rd.generated + rs.generated, "exhaustive": True,
+        coverage = {"states": rd.distinct + rs.distinct + rf.distinct, "transitions": rd.generated + rs.generated + rf.generated, "exhaustive": True,
                     "constants": {"Dex": "2 chains, 2 accounts, pool 100, amount 7, withdrawals of 50 / 100 %, 3-4 operations, 5-6 rotations", "Swap": "2 accounts, amounts 3 / 5, 3 orders, 5-6 steps, certificates with two close instructions"},
                     "guards_confirmed_necessary": needed, "traces_validated_against_impl": 3, "trace_lines": total, "trace_lines_accepted": total,
                     "per_trace": stats, "samples": samples, "violation_classes": {k: len(x) for k, x in classes.items()}, "known_findings_reproduced": [k for k, _ in v.known]}
@@ -108,8 +111,8 @@ def main(tier):
                             ["handlers are driven directly on the state machines of two real nodes (not through blocks and certificates); both chains run the root-side entry point HandleDexBatch(isNested=false)",
                              "the provider cap (5000 liquidity providers, eviction), IncludeSameBlockDex and the liveness fallback are not exercised",
                              "exact recomputation by TLC only for amounts that fit 32-bit integers; near 2^64 the identities are evaluated by the driver with arbitrary precision and checked as recorded facts"])
-        print("C20 %s: design %d+%d states; %d lines of real dex / order-book operations recomputed by TLC; %s; classes %s"
-              % (tier, rd.distinct, rs.distinct, total, {k: s["lines"] for k, s in stats.items()}, {k: len(x) for k, x in classes.items()}))
+        print("C20 %s: design %d+%d states (+%d with liveness fallback); %d lines of real dex / order-book operations recomputed by TLC; %s; classes %s"
+              % (tier, rd.distinct, rs.distinct, rf.distinct, total, {k: s["lines"] for k, s in stats.items()}, {k: len(x) for k, x in classes.items()}))
         return v.exit_code()
     finally:
         shutil.rmtree(work, ignore_errors=True)
